@@ -435,6 +435,8 @@ class State:
             return known
         if o.kind == "abslist":
             return o.meta["nonempty"]
+        if "truth" in o.meta:
+            return o.meta["truth"](self, r)
         return BT
 
     def obj_eq(self, a, b):
@@ -1682,6 +1684,8 @@ class Engine:
             raise OutOfSubset("for/else")
 
         def f(s, itv):
+            if isinstance(itv, R) and "iter" in s.obj(itv).meta:
+                itv = s.obj(itv).meta["iter"](self, s, itv)
             if isinstance(itv, R) and s.obj(itv).kind in ("abslist",):
                 return self.B.abslist_for(self, s, itv, stmt)
             if isinstance(itv, U):
